@@ -49,13 +49,64 @@ func intClass(n int64, withDnum bool) class {
 	return c
 }
 
+// liveConcats are the SuConcat values created in the current case; their (possibly shared)
+// buffers are extended by later concatenations before the oracles run
+var liveConcats []SuConcat
+
+// storedKeys remembers the very key values members were stored under
+var storedKeys []struct {
+	ob, k, v Value
+	desc     string
+}
+
+func track(c SuConcat) Value {
+	liveConcats = append(liveConcats, c)
+	return c
+}
+
 func strClass(s string) class {
 	x := lib.X(s)[1:]
-	return class{
+	h := len(s) / 2
+	c := class{
 		{func() Value { return SuStr(s) }, "S" + x},
-		{func() Value { return NewSuConcat().Add(s) }, "C" + x},
+		{func() Value { return track(NewSuConcat().Add(s)) }, "C" + x},
 		{func() Value { return &SuExcept{SuStr: SuStr(s)} }, "E" + x},
+		// built in two steps: shares its buffer with its own prefix value
+		{func() Value { c0 := NewSuConcat().Add(s[:h]); track(c0); return track(c0.Add(s[h:])) }, "C" + x},
+		// already extended by a derived concatenation when it is first used
+		{func() Value { c := NewSuConcat().Add(s); track(c.Add("tail")); return track(c) }, "C" + x},
+		// the prefix of a longer value whose buffer it shares, after a sibling took the buffer over
+		{func() Value {
+			c := NewSuConcat().Add(s)
+			d := c.Add("x")
+			track(c.Add("y")) // copies: d owns the tail of the shared buffer
+			track(d)
+			return track(c)
+		}, "C" + x},
+		// exception text produced by concatenation (cat3 keeps the exception)
+		{func() Value { return OpCat(&SuExcept{SuStr: SuStr(s[:h])}, SuStr(s[h:])) }, "E" + x},
 	}
+	if len(s) >= 256 {
+		// what `a $ b` produces for long strings, and the same after `(a $ b) $ c`
+		c = append(c, alt{func() Value {
+			v := OpCat(SuStr(s[:h]), SuStr(s[h:]))
+			if cc, ok := v.(SuConcat); ok {
+				track(cc)
+			}
+			return v
+		}, "C" + x})
+		c = append(c, alt{func() Value {
+			v := OpCat(SuStr(s[:h]), SuStr(s[h:]))
+			if cc, ok := v.(SuConcat); ok {
+				track(cc)
+				if d, ok := OpCat(v, SuStr("more")).(SuConcat); ok {
+					track(d)
+				}
+			}
+			return v
+		}, "C" + x})
+	}
+	return c
 }
 
 func dateClass(y, m, d, h, mi, s, ms, extra int) class {
@@ -87,7 +138,8 @@ func init() {
 	for _, s := range []string{"", "a", "b", "ab", "A", "a\x00", "\xff", "k"} {
 		scalars = append(scalars, strClass(s))
 	}
-	scalars = append(scalars, strClass(strings.Repeat("x", 70)), strClass(strings.Repeat("x", 70)+"y"))
+	scalars = append(scalars, strClass(strings.Repeat("x", 70)), strClass(strings.Repeat("x", 70)+"y"),
+		strClass(strings.Repeat("ab", 150)), strClass(strings.Repeat("ab", 150)+"c"))
 	scalars = append(scalars, dateClass(2020, 1, 1, 0, 0, 0, 0, 0), dateClass(2020, 1, 1, 0, 0, 0, 0, 1),
 		dateClass(2020, 1, 1, 0, 0, 0, 0, 2), dateClass(2020, 1, 1, 0, 0, 1, 0, 0), dateClass(2020, 1, 2, 0, 0, 0, 0, 0),
 		dateClass(2019, 12, 31, 23, 59, 59, 999, 0), dateClass(2019, 12, 31, 23, 59, 59, 999, 255),
@@ -152,7 +204,8 @@ func gen(r *rand.Rand, depth int) node {
 // id identifies the abstract value (first representation, canonical member order)
 func (n node) id() string {
 	_, e := n.realize(nil)
-	return e
+	// a record and an object with the same members are Equal (deepEqual): same abstract value
+	return strings.ReplaceAll(e, "R(", "O(")
 }
 
 // realize builds one representation; r == nil gives the canonical one (first alternatives,
@@ -203,6 +256,14 @@ func (n node) realize(r *rand.Rand) (Value, string) {
 			ob.Set(m.k, m.v)
 		}
 		res = ob
+	}
+	if r != nil {
+		for _, m := range kvs {
+			storedKeys = append(storedKeys, struct {
+				ob, k, v Value
+				desc     string
+			}{res, m.k, m.v, m.ke})
+		}
 	}
 	// the model reads the members in a canonical (sorted) order: Compare/Equal/Hash must not
 	// depend on it
@@ -267,6 +328,7 @@ func main() {
 		}
 		var v [3]Value
 		var e [3]string
+		liveConcats, storedKeys = liveConcats[:0], storedKeys[:0]
 		for j := range nodes {
 			v[j], e[j] = nodes[j].realize(r)
 			if nodes[j].isObj {
@@ -275,7 +337,28 @@ func main() {
 				t.Count("gen:" + e[j][:1])
 			}
 		}
+		if r.Intn(2) == 0 && len(liveConcats) > 0 {
+			// later concatenations derived from the values in use extend their shared buffers;
+			// the values themselves are unchanged and everything below must still hold
+			for _, c := range liveConcats {
+				c.Add("+ext")
+				OpCat(c, SuStr(strings.Repeat("z", 300)))
+			}
+			t.Count("gen:concat-buffers-extended")
+		}
 		msg := lib.Catch(func() {
+			// the very key a member was stored under still finds it
+			for _, sk := range storedKeys {
+				got := sk.ob.Get(nil, sk.k)
+				if got == nil || !got.Equal(sk.v) {
+					sig := "get-stored-key"
+					if _, ok := sk.k.(SuConcat); ok {
+						sig += ":concat"
+					}
+					t.Fail(sig, fmt.Sprintf("member stored under %s is not found by that same key value (got %v)", sk.desc, got))
+				}
+				t.Count("get:stored-key")
+			}
 			// ---- model replay
 			for _, p := range [][2]int{{0, 1}, {1, 2}, {0, 2}, {1, 0}} {
 				t.Q("cmp "+e[p[0]]+" "+e[p[1]], fmt.Sprint(sgn(v[p[0]].Compare(v[p[1]]))))
@@ -321,6 +404,9 @@ func main() {
 				}
 				if eq && x.Hash() != y.Hash() {
 					sig := "equal-hash" + repmix
+					if !nodes[p[0]].isObj && (ex[0] == 'C' || ey[0] == 'C') {
+						sig = "equal-hash:concat"
+					}
 					if nodes[p[0]].isObj && (repmix == "" || ex == ey) {
 						sig = "equal-hash:object-order" // same members, other insertion order
 					}
